@@ -7,23 +7,29 @@ isolation on a multiplexed HTTP/2 connection (H2Wire).
 C14 = at-most-once on the wire (Pool: retry only before anything was written) + GOAWAY rules (H2Wire).
 C16 = operation timeouts (Establish: every operation carries the right configured value) +
 pool timeout (Pool: PoolTimeout exactly at the deadline, only for a request without a
-connection; zero timeout succeeds when no waiting is needed)."""
+connection; zero timeout succeeds when no waiting is needed) + the exchange phase (OpTimeouts:
+every read / write of request, interim responses, head and body, HTTP/1.1 and HTTP/2)."""
 from . import check_establish, check_pool
 from .checklib import Check
 
 
 PARTS = {
+    "C03": ("reqwire", "pool"),
     "C01": ("pool", "h2"),
     "C10": ("establish", "pool"),
     "C14": ("pool", "h2"),
-    "C16": ("establish", "pool"),
+    "C16": ("establish", "pool", "exchange"),
 }
 
 
 def run(prop, tier):
     from . import check_h2
 
-    mods = {"pool": check_pool, "establish": check_establish, "h2": check_h2}
+    from . import exchange
+
+    from . import check_reqwire
+
+    mods = {"reqwire": check_reqwire, "pool": check_pool, "establish": check_establish, "h2": check_h2, "exchange": exchange}
     chk = Check(prop, tier, "model_checking")
     covs = {}
     for part in PARTS[prop]:
